@@ -2,6 +2,7 @@ package checks
 
 import (
 	"bytes"
+	"context"
 	"encoding/binary"
 	"errors"
 	"fmt"
@@ -28,7 +29,7 @@ type c02 struct{ base }
 func init() {
 	core.Register(c02{base{id: "C02", level: "exploration", quickB: 16, thoroughB: 32,
 		rule:        "three workloads, one oracle: the strict independent backend parser (harness/pg) must consume the whole server-to-client byte stream of every connection (known type byte, length = 4 + body, per-type grammar consumed exactly, counts match items, C-strings terminated, ErrorResponse = known field codes + text then one zero byte and nothing after, SQLSTATE 5x[0-9A-Z], line decimal, severity from the defined set, format codes 0/1, no partial message at the end). (a) handler programs from a grammar: 0-40 columns with arbitrary NUL-free unicode names over all supported OIDs, rows of right and wrong arity, encodable / unencodable / partially encodable values (frame abandoned half-way), NULL forms, arbitrary NUL-free command tags, errors decorated with every subset of code/severity/hint/detail/source/constraint, rows after completion, COPY-in responses, via simple and extended protocol with result formats; (b) hostile client input: structure-aware mutations of canonical sessions (as in C04) incl. SSLRequest/password phases; (c) direct model-based test of the public buffer.Writer API: random Start/Add*/End/Reset sequences over a sink that fails transiently - every successful End must deliver exactly one frame and a failed or abandoned frame must contribute nothing to later frames. Non-trivial = program with an abandoned row, a decorated error, unicode names, or a mutated input; distinct = program shape / mutation shape / writer-op sequence.",
-		need:        []string{"close_during_traffic_rounds", "connections_parsed", "backend_messages_parsed", "abandoned_rows", "decorated_errors", "hostile_inputs", "writer_sequences", "writer_failed_ends"},
+		need:        []string{"close_during_traffic_rounds", "session_contexts_ended_during_a_transport_write", "connections_parsed", "backend_messages_parsed", "abandoned_rows", "decorated_errors", "hostile_inputs", "writer_sequences", "writer_failed_ends"},
 		assumptions: append([]string{"strings handed to the library by the handler are NUL-free (a C-string cannot carry NUL); column counts stay below 32768; buffer.Writer sequences always Start a frame before adding to or ending it (End without Start is API misuse)"}, commonAssumptions...)}})
 }
 
@@ -508,6 +509,61 @@ func (ch c02) Run(c *core.Ctx) {
 			c.Eval(fmt.Sprintf("slow rows %d", round), true)
 			strict(conn, "rows produced slowly for a client that reads slowly", map[string]any{"workload": "slow rows, slow reader", "round": round})
 		}
+	}
+	// (l) the embedding program gives every session a context of its own (session middleware) and ends it
+	// while the k-th transport Write of the session is under way, for every k: rows of a few bytes, of 70 KB
+	// and of 200 KB (larger than anything a writer may want to hand over in one piece), simple and extended.
+	// No transport operation fails here: the whole output is complete messages
+	if c.Batch == 6%ch.Batches(c.Tier) && c.Begin(3950000) {
+		envC := hs.Start(hs.Parse, wire.SessionMiddleware(func(ctx context.Context) (context.Context, error) {
+			if conn := hs.ConnOf(ctx); conn != nil {
+				if s, _ := conn.User.(*hs.Sess); s != nil {
+					var cancel context.CancelFunc
+					ctx, cancel = context.WithCancel(ctx)
+					s.EndSession = cancel
+				}
+			}
+			return ctx, nil
+		}))
+		wide := &hs.Stmt{ID: "wide", Cols: textCols(2)}
+		for _, n := range []int{7, 70000, 200000, 3, 66000} {
+			wide.Ops = append(wide.Ops, hs.Op{K: "row", Vals: []any{strings.Repeat("w", n), "tail"}})
+		}
+		wide.Ops = append(wide.Ops, hs.Op{K: "complete", Tag: "SELECT 5"})
+		in := append(pg.Startup([][2]string{{"user", "u"}}), pg.Query("wide")...)
+		in = append(in, pg.Parse("", "wide", nil)...)
+		in = append(in, pg.Bind("", "", nil, nil, []int16{1})...)
+		in = append(append(in, pg.Execute("", 0)...), pg.Sync()...)
+		in = append(append(in, pg.Query("wide")...), pg.Terminate()...)
+		nwrites := 0
+		for k := 0; k == 0 || k <= nwrites; k++ {
+			sess := &hs.Sess{Progs: map[string]*hs.Prog{"wide": {Stmts: []*hs.Stmt{wide}}}}
+			conn := tr.NewConn(sess)
+			conn.NoLog = true
+			k := k
+			conn.OnWrite = func(i, n int) {
+				if k == 0 {
+					nwrites = i
+				} else if i == k && sess.EndSession != nil {
+					sess.EndSession()
+				}
+			}
+			envC.L.DialConn(conn)
+			conn.Send(in)
+			conn.CloseWrite()
+			if !conn.WaitClosed() {
+				c.Inconclusive("connection did not close (C02 ended-context workload)")
+				return
+			}
+			if k > 0 {
+				c.Count("session_contexts_ended_during_a_transport_write", 1)
+			}
+			c.Eval(fmt.Sprintf("context ended during write %d", k), true)
+			if !strict(conn, fmt.Sprintf("the session's context ends while transport Write %d of %d is under way (rows of up to 200 KB)", k, nwrites), map[string]any{"workload": "context ended during a write", "write": k}) {
+				break
+			}
+		}
+		envC.Stop()
 	}
 	// (k) encryption negotiated twice on one connection (GSSAPI encryption asked for and TLS asked for, in
 	// either order, as libpq does with gssencmode=prefer sslmode=prefer): after the one single-byte answer
